@@ -10,6 +10,7 @@ use super::summary as sm;
 use crate::fw;
 use bytes::Bytes;
 use scylla_cql::deserialize::row::ColumnIterator;
+use scylla_cql::deserialize::value::{ListlikeIterator, MapIterator, VectorIterator};
 use scylla_cql::frame::protocol_features::ProtocolFeatures;
 use scylla_cql::frame::request::query::PagingStateResponse;
 use scylla_cql::frame::response::ResponseV2;
@@ -173,7 +174,7 @@ pub const KINDS: [&str; 16] = [
     "result-prepared",
     "result-schema-change",
 ];
-pub const TARGETS: [&str; 16] = [
+pub const TARGETS: [&str; 20] = [
     "Row",
     "Raw",
     "(i32,String)",
@@ -190,6 +191,10 @@ pub const TARGETS: [&str; 16] = [
     "(Option<Vec<f32>>,)",
     "(Option<UdtLoose>,)",
     "(Option<UdtOrdered>,)",
+    "Walk(VectorIterator<f32>)",
+    "Walk(VectorIterator<String>)",
+    "Walk(ListlikeIterator<i32>)",
+    "Walk(MapIterator<String,i32>)",
 ];
 
 /// stage code: index into STAGES, or 100 + index into TARGETS for "rows<target>"
@@ -512,6 +517,65 @@ struct RowAB {
     b: String,
 }
 
+/// Lazy collection targets (`VectorIterator`, `ListlikeIterator`, `MapIterator`): every way of stepping
+/// through one - `next`, `nth(k)` for k up to and past the announced length, `step_by`, `last` - must end in
+/// items or errors, and never in more items than the iterator announced (an iterator whose length
+/// wrapped round does not terminate). Rendered as a count only: never compared, only run.
+fn walk<I, T, E>(it: I) -> Result<String, String>
+where
+    I: Iterator<Item = Result<T, E>> + ExactSizeIterator + Clone,
+{
+    // the whole walk costs about a thousand steps; only the first rows of a response get it
+    thread_local! { static WALKS: std::cell::Cell<u32> = const { std::cell::Cell::new(0) }; }
+    let nth_walk = WALKS.with(|w| {
+        w.set(w.get().wrapping_add(1));
+        w.get()
+    });
+    let n0 = it.size_hint().0;
+    let lim = if nth_walk % 64 < 6 { n0.min(4) } else { 0 };
+    let drain_cap = n0.saturating_add(2).min(48);
+    let drain = |mut c: I, what: &str| {
+        let mut steps = 0usize;
+        while c.next().is_some() {
+            steps += 1;
+            if steps >= drain_cap {
+                break;
+            }
+        }
+        if n0 < 40 && (steps > n0 || c.size_hint().0 > n0) {
+            panic!("lazy collection iterator announced {n0} items, after {what} it yielded {steps} more and announces {}", c.size_hint().0);
+        }
+    };
+    for k in 0..=(if lim == 0 && nth_walk % 64 >= 6 { 0 } else { lim + 1 }) {
+        let mut c = it.clone();
+        let _ = c.nth(k);
+        drain(c, "nth(k)");
+        // the same from the middle
+        let mut c = it.clone();
+        let _ = c.next();
+        let _ = c.nth(k);
+        drain(c, "next + nth(k)");
+    }
+    // (step_by drives nth(step - 1), which walks element by element where there is no fast path: small lengths only)
+    for step in if n0 < 40 { vec![2usize, n0.max(1), n0 + 1] } else { vec![2usize] } {
+        let mut taken = 0usize;
+        for _ in it.clone().step_by(step).take(drain_cap) {
+            taken += 1;
+        }
+        if n0 < 40 && taken > n0 {
+            panic!("lazy collection iterator announced {n0} items, step_by({step}) yielded {taken}");
+        }
+    }
+    let mut ok = 0usize;
+    for x in it.take(drain_cap) {
+        if x.is_err() {
+            return Err("element".into());
+        }
+        ok += 1;
+    }
+    Ok(sm::row(vec![sm::v_int(ok as i64)]))
+}
+
 fn run_target<'f, 'm, R>(
     name: &'static str,
     rows: &'f DeserializedMetadataAndRawRows,
@@ -629,6 +693,10 @@ fn run_targets(rows: &DeserializedMetadataAndRawRows, cap: u64, keep_text: bool,
     out.push(run_target::<(Option<UdtOrdered>,)>("(Option<UdtOrdered>,)", rows, cap, false, |(u,)| {
         Ok(sm::row(vec![opt(&u, |u| sm::v_udt(vec![("a".into(), opt(&u.a, |a| sm::v_int(*a as i64))), ("b".into(), opt(&u.b, |b| sm::v_text(b)))]))]))
     }));
+    out.push(run_target::<(Option<VectorIterator<f32>>,)>("Walk(VectorIterator<f32>)", rows, cap, false, |(a,)| a.map(walk).unwrap_or(Ok(sm::row(vec![sm::V_NULL.into()])))));
+    out.push(run_target::<(Option<VectorIterator<String>>,)>("Walk(VectorIterator<String>)", rows, cap, false, |(a,)| a.map(walk).unwrap_or(Ok(sm::row(vec![sm::V_NULL.into()])))));
+    out.push(run_target::<(Option<ListlikeIterator<i32>>,)>("Walk(ListlikeIterator<i32>)", rows, cap, false, |(a,)| a.map(walk).unwrap_or(Ok(sm::row(vec![sm::V_NULL.into()])))));
+    out.push(run_target::<(Option<MapIterator<String, i32>>,)>("Walk(MapIterator<String,i32>)", rows, cap, false, |(a,)| a.map(walk).unwrap_or(Ok(sm::row(vec![sm::V_NULL.into()])))));
 }
 
 fn result_metadata_lines(m: &ResultMetadata<'_>, s: &mut String) {
